@@ -421,7 +421,10 @@ def parseFieldExtra : FK → Tok → Option FV
       | none => none
     | none => none
   | .b64One, t => match unescapeCP t.val with
-    | some v => (b64Decode v).map .b
+    | some v => match b64Decode v with
+      -- `fix:` commit 18b73c9: HIP / TKEY keys are bounded by their 16-bit wire length (a TSIG MAC by its length field)
+      | some b => if b.length > 65535 then none else some (.b b)
+      | none => none
     | none => none
   | .rcode, t => match unescapeCP t.val with
     | some v => (enumFromText ConstsC05.rcodeNames [] 4095 v).map .n
@@ -569,7 +572,9 @@ def parseTail (vals : List FV) : TK → List Tok → Option (Option FV)
         | none => none
     (types toks).map fun tys => some (.wl (Dnssec.fromRdtypes tys))
   | .b64Opt, toks => match concatIdents true toks with
-    | some s => (b64Decode s).map fun b => some (.b b)
+    | some s => match b64Decode s with
+      | some b => if b.length > 65535 then none else some (some (.b b))    -- commit 18b73c9
+      | none => none
     | none => none
   | .tsigOther, toks =>
     -- vals = [alg, time, fudge, maclen, mac, original id, error, otherlen]
@@ -813,6 +818,8 @@ def encFields (tname : String) (origin : Option Name) : Nat → List FK → List
     let one : Option Bytes :=
       match k, v with
       | .cstr _ _ _, .b s => if isRestField tname i then some s else encField origin k v
+      -- TKEY's key carries its own 16-bit length (TSIG's MAC length is an explicit field of the schema)
+      | .b64One, .b s => if tname == "TKEY" then packGuard (decide (s.length < 65536)) (beBytes 2 s.length ++ s) else encField origin k v
       | _, _ => encField origin k v
     match one, encFields tname origin (i + 1) ks vs with
     | some a, some r => some (a ++ r)
@@ -852,15 +859,35 @@ def encTail (origin : Option Name) : TK → Option FV → Option Bytes
   | .txt, some (.bl ss) => packGuard (ss.all fun s => decide (s.length < 256)) (ss.flatMap fun s => s.length :: s)
   | .optCstr, some (.b s) => packGuard (decide (s.length < 256)) (if s = [] then [] else s.length :: s)
   | .tsigOther, some (.b d) => some d     -- TSIG other data; its 16-bit length is the last prefix field
+  | .b64Opt, some (.b d) => packGuard (decide (d.length < 65536)) (beBytes 2 d.length ++ d)   -- TKEY other data
   | .wks, some (.wks addr proto bm) => packGuard (decide (addr.length = 4) && decide (proto < 256)) (addr ++ proto :: bm)
   | .apl, some (.apl items) => encAplItems items
   | .gateway _ _, some (.gw kind addr nm key) => (encGateway origin kind addr nm).map (· ++ key)
   | _, _ => none
 
-def encRec (tname : String) (sch : Schema) (origin : Option Name) (vals : List FV) (tail : Option FV) : Option Bytes :=
+def encRecG (tname : String) (sch : Schema) (origin : Option Name) (vals : List FV) (tail : Option FV) : Option Bytes :=
   match encFields tname origin 0 sch.fields vals, encTail origin sch.tail tail with
   | some a, some b => some (a ++ b)
   | _, _ => none
+
+def encNames (origin : Option Name) : List Name → Option Bytes
+  | [] => some []
+  | n :: r => match encName origin n, encNames origin r with
+    | some a, some b => some (a ++ b)
+    | _, _ => none
+
+/-- `HIP._to_wire`: `!BBH` (hit length, algorithm, key length), hit, key, the rendezvous servers uncompressed -/
+def encHip (origin : Option Name) : List FV → Option FV → Option Bytes
+  | [.n alg, .b hit, .b key], some (.nl servers) =>
+    match packGuard (decide (hit.length < 256) && decide (alg < 256) && decide (key.length < 65536))
+        ([hit.length, alg] ++ beBytes 2 key.length ++ hit ++ key), encNames origin servers with
+    | some a, some b => some (a ++ b)
+    | _, _ => none
+  | _, _ => none
+
+/-- `to_wire(origin=origin)` of a schema value (HIP's header is not in schema order) -/
+def encRec (tname : String) (sch : Schema) (origin : Option Name) (vals : List FV) (tail : Option FV) : Option Bytes :=
+  if tname = "HIP" then encHip origin vals tail else encRecG tname sch origin vals tail
 
 /-- `parser.get_name(origin)`: decode at `cur` inside the rdata, then `relativize(origin)` (`if origin:` — an empty
 name is falsy) -/
